@@ -26,6 +26,8 @@ type C15Case struct {
 	// only be stored by the program itself: every textual source splits an
 	// entry at its first colon)
 	ColonKeys []string `json:"colon_keys,omitempty"`
+	// IniAsDefaults: the INI text is read with ParseAsDefaults set
+	IniAsDefaults bool `json:"ini_as_defaults,omitempty"`
 }
 
 // c15Build builds the parser of the scenario and applies ColonKeys.
@@ -107,7 +109,7 @@ func genC15(t *rapid.T) *C15Case {
 			g0.Options = append(g0.Options, Opt{ID: fmt.Sprintf("dup%d", i), Field: fmt.Sprintf("Dup%d", i), Kind: KString, Long: n})
 		}
 	}
-	c := &C15Case{D: d, Reps: 40}
+	c := &C15Case{D: d, Reps: 40, IniAsDefaults: rapid.IntRange(0, 2).Draw(t, "iniAsDefaults") == 0}
 	for _, o := range d.AllOpts() {
 		if (o.Kind == KMapSS || o.Kind == KMapSI) && len(o.Initial) >= 2 && rapid.IntRange(0, 3).Draw(t, "colonKeys") == 0 {
 			c.ColonKeys = append(c.ColonKeys, o.ID)
@@ -255,7 +257,9 @@ func c15Eval(c *C15Case) (parts map[string]string, pm string) {
 		parts["help-after-parse"] = buf.String()
 		// ini input
 		b3 := c15Build(c)
-		if err := flags.NewIniParser(b3.P).Parse(strings.NewReader(c.Ini)); err != nil {
+		ip3 := flags.NewIniParser(b3.P)
+		ip3.ParseAsDefaults = c.IniAsDefaults
+		if err := ip3.Parse(strings.NewReader(c.Ini)); err != nil {
 			parts["ini-error"] = err.Error()
 		}
 		parts["ini-values"] = iniFields(b3)
